@@ -9,6 +9,7 @@ package c09
 // the luck of one seed.
 
 import (
+	"math/big"
 	"testing"
 
 	"pgregory.net/rapid"
@@ -27,6 +28,22 @@ var gridWidthsQuick = []int{1, 2, 3, 5, 6, 7, 8, 9, 11, 12, 13, 15, 16, 17, 19, 
 var gridWidthsThorough = []int{66, 71, 72, 80, 81, 95, 96, 97, 127, 128, 129, 130}
 
 func genGrid(t *rapid.T) Case {
+	p := gridProg(t)
+	cs := Case{Prog: p}
+	// Half of the cases compile another one-operator program first (in the
+	// same process, on its own Params objects): caches inside the compiler
+	// must not carry anything from one program into the next.
+	if rapid.Bool().Draw(t, "warm") {
+		cs.Warm = gridProg(t)
+	}
+	cs.Inputs = mpcl.DrawInputsN(t, p, 10, gridVectors())
+	return cs
+}
+
+func gridProg(t *rapid.T) *mpcl.Prog {
+	if gen.Uniform(t, 5, "levels") < 3 {
+		return gridProg2(t)
+	}
 	op := gridOps[gen.Uniform(t, len(gridOps), "op")]
 	ws := gridWidthsQuick
 	if ev.Get(prop).Thorough() {
@@ -90,7 +107,7 @@ func genGrid(t *rapid.T) Case {
 			Params:  []mpcl.Param{{Name: "a", T: S}, {Name: "b", T: S}},
 			Results: []mpcl.Type{R},
 			Body:    []*mpcl.Stmt{{K: mpcl.SReturn, Es: []*mpcl.Expr{e}}}}}}
-		return Case{Prog: p, Inputs: mpcl.DrawInputsN(t, p, 10, gridVectors())}
+		return p
 	case "narrow":
 		nw := (w + 1) / 2
 		S := mpcl.Type{K: T.K, N: nw}
@@ -108,7 +125,45 @@ func genGrid(t *rapid.T) Case {
 		Params:  []mpcl.Param{{Name: "a", T: a.T}, {Name: "b", T: b.T}},
 		Results: []mpcl.Type{R},
 		Body:    []*mpcl.Stmt{{K: mpcl.SReturn, Es: []*mpcl.Expr{e}}}}}}
-	return Case{Prog: p, Inputs: mpcl.DrawInputsN(t, p, 10, gridVectors())}
+	return p
+}
+
+// singleDivMod returns "/" or "%" when the program is main(a T, b T) T
+// { return a / b } (or %), else "".
+func singleDivMod(p *mpcl.Prog) string {
+	m := p.Main()
+	if len(p.Funcs) != 1 || len(m.Body) != 1 || m.Body[0].K != mpcl.SReturn || len(m.Body[0].Es) != 1 {
+		return ""
+	}
+	e := m.Body[0].Es[0]
+	if e.Op != mpcl.EBin || (e.Name != "/" && e.Name != "%") || len(e.A) != 2 ||
+		e.A[0].Op != mpcl.EVar || e.A[1].Op != mpcl.EVar || !e.T.IsInt() {
+		return ""
+	}
+	return e.Name
+}
+
+// offByTwo tells whether a wrong quotient / remainder of a one-operator
+// division program is the known Goldschmidt error (open C07 finding): the
+// quotient is off by exactly 2, the remainder by exactly 2*|b|, modulo 2^n.
+func offByTwo(op string, T mpcl.Type, b, got, want *big.Int) bool {
+	n := T.N
+	mod := new(big.Int).Lsh(big.NewInt(1), uint(n))
+	d := new(big.Int).Sub(got, want)
+	d.Mod(d, mod)
+	unit := big.NewInt(1)
+	if op == "%" {
+		bb := new(big.Int).Set(b)
+		if T.Signed() {
+			bb = mpcl.ToSigned(b, n)
+		}
+		unit = bb.Abs(bb)
+	}
+	two := new(big.Int).Lsh(unit, 1)
+	two.Mod(two, mod)
+	neg := new(big.Int).Sub(mod, two)
+	neg.Mod(neg, mod)
+	return d.Cmp(two) == 0 || d.Cmp(neg) == 0
 }
 
 func itoa(k int) string {
@@ -136,4 +191,95 @@ func init() { ev.Register("opgrid", run) }
 
 func TestOpGrid(t *testing.T) {
 	ev.Check(t, ev.Get(prop), "opgrid", genGrid, run)
+}
+
+
+var innerOps = []string{"+", "-", "*", "&", "|", "^"}
+var outerOps = []string{"+", "-", "*", "/", "%", "&", "|", "^", "&^", "==", "!=", "<", "<=", ">", ">="}
+
+// gridProg2 builds a two-level program: an inner operator on the inputs, a
+// step that makes some bits of the intermediate value compile-time constants
+// (mask with a literal, shift, narrowing followed by widening), and an outer
+// operator that combines the deep, partially constant value with a shallow
+// one (an input):  main(a T, b T) R { return mask(a OP1 b) OP2 b }.
+func gridProg2(t *rapid.T) *mpcl.Prog {
+	ws := gridWidthsQuick
+	if ev.Get(prop).Thorough() {
+		ws = append(append([]int{}, ws...), gridWidthsThorough...)
+	}
+	op1 := innerOps[gen.Uniform(t, len(innerOps), "op1")]
+	op2 := outerOps[gen.Uniform(t, len(outerOps), "op2")]
+	w := ws[gen.Uniform(t, len(ws), "width")]
+	lim := 130
+	if op2 == "/" || op2 == "%" {
+		lim = 33
+		if ev.Get(prop).Thorough() {
+			lim = 72
+		}
+	}
+	for w > lim || w < 2 {
+		w = ws[gen.Uniform(t, len(ws), "width")]
+	}
+	T := mpcl.Uint(w)
+	if rapid.Bool().Draw(t, "signed") {
+		T = mpcl.Int(w)
+	}
+	a := &mpcl.Expr{Op: mpcl.EVar, T: T, Name: "a"}
+	b := &mpcl.Expr{Op: mpcl.EVar, T: T, Name: "b"}
+	inner := &mpcl.Expr{Op: mpcl.EBin, T: T, Name: op1, A: []*mpcl.Expr{a, b}}
+	k := rapid.IntRange(1, w-1).Draw(t, "k")
+	lowmask := new(big.Int).Sub(new(big.Int).Lsh(big.NewInt(1), uint(k)), big.NewInt(1))
+	lit := func(v *big.Int) *mpcl.Expr { return &mpcl.Expr{Op: mpcl.ELit, T: T, Val: "0x" + v.Text(16)} }
+	var masked *mpcl.Expr
+	switch gen.Uniform(t, 6, "mask") {
+	case 0:
+		masked = &mpcl.Expr{Op: mpcl.EBin, T: T, Name: "&", A: []*mpcl.Expr{inner, lit(lowmask)}}
+	case 1:
+		masked = &mpcl.Expr{Op: mpcl.EBin, T: T, Name: "|", A: []*mpcl.Expr{inner, lit(lowmask)}}
+	case 2:
+		masked = &mpcl.Expr{Op: mpcl.EBin, T: T, Name: "<<", A: []*mpcl.Expr{inner,
+			{Op: mpcl.ELit, T: mpcl.Uint(32), Val: itoa(k)}}}
+	case 3:
+		masked = &mpcl.Expr{Op: mpcl.EBin, T: T, Name: ">>", A: []*mpcl.Expr{inner,
+			{Op: mpcl.ELit, T: mpcl.Uint(32), Val: itoa(k)}}}
+	case 4:
+		// narrow, then widen again (same signedness)
+		S := mpcl.Type{K: T.K, N: k}
+		if k < 2 {
+			S = mpcl.Type{K: T.K, N: 2}
+		}
+		if S.N >= w {
+			masked = inner
+		} else {
+			masked = &mpcl.Expr{Op: mpcl.ECast, T: T, A: []*mpcl.Expr{{Op: mpcl.ECast, T: S, A: []*mpcl.Expr{inner}}}}
+		}
+	default:
+		masked = inner
+	}
+	shallow := b
+	if rapid.Bool().Draw(t, "shallow-a") {
+		shallow = a
+	}
+	l, r := masked, shallow
+	if rapid.Bool().Draw(t, "swap") {
+		l, r = shallow, masked
+	}
+	R := T
+	switch op2 {
+	case "==", "!=", "<", "<=", ">", ">=":
+		R = mpcl.Bool()
+	}
+	e := &mpcl.Expr{Op: mpcl.EBin, T: R, Name: op2, A: []*mpcl.Expr{l, r}}
+	body := []*mpcl.Stmt{{K: mpcl.SReturn, Es: []*mpcl.Expr{e}}}
+	if R.K == mpcl.KBool && rapid.Bool().Draw(t, "branch") {
+		// Use the comparison as a branch condition.
+		R = T
+		body = []*mpcl.Stmt{
+			{K: mpcl.SIf, E: e, Then: []*mpcl.Stmt{{K: mpcl.SReturn, Es: []*mpcl.Expr{a}}}},
+			{K: mpcl.SReturn, Es: []*mpcl.Expr{b}},
+		}
+	}
+	return &mpcl.Prog{Funcs: []*mpcl.Func{{Name: "main",
+		Params:  []mpcl.Param{{Name: "a", T: T}, {Name: "b", T: T}},
+		Results: []mpcl.Type{R}, Body: body}}}
 }
